@@ -12,7 +12,7 @@ from ..ref import jumpvm, urls
 
 LEVEL = 'model_checking'
 RULE = ('virtual file system; every include tree up to the depth / fan-out bound where each edge chooses a reference '
-        'form from {sibling x.bare, sub/x.bare, ../x.bare, /abs/x.bare, http://h/p/x.bare, file:/srv/q/x.bare (an absolute URL with a single slash), <x.bare> system}; the root is '
+        'form from {sibling x.bare, sub/x.bare, ../x.bare, /abs/x.bare, http://h/p/x.bare, file:/srv/q/x.bare (an absolute URL with a single slash), mem:x.bare (an absolute URL without any slash), <x.bare> system}; the root is '
         'started with a path base, a sub-directory path base, a URL base or without urlFn, with a path / URL / no system '
         'prefix; files log on entry and exit, assign a global, optionally return in the middle; adjacent and separated '
         'include lines. Every fetch is a decision point of the tape with answers {text, missing, fetchFn raises, text '
@@ -26,7 +26,7 @@ ASSUMPTIONS = [
     'the error message wording is not compared, only the exception class and the quoted location it contains',
 ]
 
-FORMS = ('sib', 'sub', 'up', 'abs', 'url', 'url1', 'sys')
+FORMS = ('sib', 'sub', 'up', 'abs', 'url', 'url1', 'url0', 'sys')
 ROOTS = [
     {'name': 'path', 'base': 'main.bare', 'sys': 'sys/inc/'},
     {'name': 'subdir-path', 'base': 'lib/main.bare', 'sys': None},
@@ -39,7 +39,7 @@ FETCH_ANSWERS = 6   # 0 text, 1 missing, 2 raises, 3 syntax error, 4 an empty fi
 
 def ref_text(form, name):
     return {'sib': name, 'sub': 'sub/' + name, 'up': '../' + name, 'abs': '/abs/' + name,
-            'url': 'http://h/p/q/' + name, 'url1': 'file:/srv/q/' + name, 'sys': name}[form]
+            'url': 'http://h/p/q/' + name, 'url1': 'file:/srv/q/' + name, 'url0': 'mem:' + name, 'sys': name}[form]
 
 
 def trees(depth, fan):
@@ -278,7 +278,7 @@ def plan(tier):
     """(tree list, forms, bound, styles, early?) groups."""
     if tier == 'quick':
         return [
-            (trees(3, 1), FORMS, 1, ('adjacent',), True),                 # chains to depth 3, all seven forms
+            (trees(3, 1), FORMS, 1, ('adjacent',), True),                 # chains to depth 3, all eight forms
             (trees(2, 2), ('sib', 'up', 'sys'), 1, ('adjacent', 'separated'), False),
             (trees(1, 2), FORMS, 1, ('adjacent', 'separated'), False),
             (trees(2, 1), ('sib', 'sub', 'sys'), 1, ('in-function',), False),
@@ -540,7 +540,7 @@ def families(tier):
     cli = [seq for n in range(1, maxseq + 1) for seq in itertools.product(range(len(CLI_ITEMS)), repeat=n) if contiguous_files(seq)]
     nf = [{'root': r, 'form': f} for r in range(len(ROOTS)) for f in FORMS]
     return [
-        Family('trees', fam_trees, split(cs, 64), 'include trees per mc/props/C17.plan(tier): chains with all seven reference forms, fan-out 2 trees, four root configurations, fault answers on every fetch', expected=len(cs)),
+        Family('trees', fam_trees, split(cs, 64), 'include trees per mc/props/C17.plan(tier): chains with all eight reference forms, fan-out 2 trees, four root configurations, fault answers on every fetch', expected=len(cs)),
         Family('reuse', fam_reuse, [[{'fault': f} for f in ('none', 'missing', 'broken', 'runtime-error')]], 'a run whose nested include fails (missing file, syntax error, runtime error at depth 2) or succeeds, followed by a second run with the SAME options object', expected=4),
         Family('cli', fam_cli, split(cli, 16), f'bare_script.bare.main with every sequence of <= {maxseq} scripts over {{a file in a sub-directory, a file in the working directory, inline code with an include, inline code, a file with a system include}} on real temporary files', expected=len(cli)),
         Family('nofetch', fam_nofetch, [nf], 'no fetchFn: every reference form x root configuration', expected=len(nf)),
